@@ -22,7 +22,16 @@ def mkfunc(name, sig, with_self):
     total = r + (1 if with_self else 0)
     key = (name, total, o, v, k) if not naming else (name, with_self, r, o, v, k, naming)
     if key not in _FUNCS:
-        if naming:
+        body = "pass"
+        if naming in ("s", "t"):
+            # PEP 570: some leading parameters (all of them for `t`, a prefix that may include defaulted ones for `s`) are
+            # positional-only; the body has locals (they follow the parameters in co_varnames)
+            ps = ["a%d" % i for i in range(total)] + ["b%d=None" % i for i in range(o)]
+            cut = len(ps) if naming == "t" else max(1, (len(ps) + 1 + r + 2 * o + v) % (len(ps) + 1))
+            if ps:
+                ps.insert(min(cut, len(ps)), "/")
+            body = "scratch = 1\n    other = scratch\n    return other"
+        elif naming:
             names = ["p%d" % i for i in range(r + o)]
             if naming == "q":
                 names.reverse()
@@ -31,7 +40,7 @@ def mkfunc(name, sig, with_self):
             ps = ["a%d" % i for i in range(total)] + ["b%d=None" % i for i in range(o)]
         ps += (["*args"] if v else []) + (["**kws"] if k else [])
         ns = {}
-        exec("def %s(%s): pass" % (name, ", ".join(ps)), ns)
+        exec("def %s(%s):\n    %s" % (name, ", ".join(ps), body), ns)
         _FUNCS[key] = ns[name]
     return _FUNCS[key]
 
@@ -70,7 +79,7 @@ def shapes(sig, impl_pos):
 
 def psig(s):
     """`r.o.v.k[naming]` -> ((r, o, v, k), naming)"""
-    naming = s[-1] if s[-1] in "pq" else ""
+    naming = s[-1] if s[-1] in "pqst" else ""
     return tuple(int(x) for x in (s[:-1] if naming else s).split(".")), naming
 
 
